@@ -113,7 +113,7 @@ func Load(opt LoadOptions) (*Loaded, error) {
 
 func NewExec(l *Loaded) *Exec {
 	x := &Exec{Prog: l.Prog, Pkgs: l.Pkgs, MaxSteps: 20_000_000, MaxAlloc: 4096, MaxConcretize: 80,
-		Timeout: 60 * time.Second, FeasTimeout: 5 * time.Second, NLFeasTimeout: 1 * time.Second, SampleTries: 40, MaxUnknownFeas: 60, Contracts: map[string]bool{}, mergeBad: map[ssa.Instruction]bool{}}
+		Timeout: 60 * time.Second, FeasTimeout: 5 * time.Second, NLFeasTimeout: 1 * time.Second, SampleTries: 40, MaxUnknownFeas: 60, MaxViolations: 6, Contracts: map[string]bool{}, mergeBad: map[ssa.Instruction]bool{}}
 	if rt := l.Prog.ImportedPackage("runtime"); rt != nil {
 		if m := rt.Members["errorString"]; m != nil {
 			x.rtErrType = m.Type()
